@@ -38,6 +38,8 @@ def gen_patterns(shape, nnz_max, rng, count, modes=None, reindex=None):
             out.add(pat)
     return sorted(out)
 
+THOROUGH_SEEDS = 8
+
 
 def cases(tier, seed):
     rng = random.Random(seed + 1)
@@ -70,6 +72,11 @@ def cases(tier, seed):
                     cs.append({'scen': 'ttsvd', 's': dict(base, rmax=rm)})
             if j % 3 == 2 and d >= 2:
                 cs.append({'scen': 'ttsvd', 's': dict(base, rmax=[1] + [1 + (k % 2) for k in range(d - 1)] + [1])})
+    # G: arbitrary (sign-free) entries where every unfolding has one row or one column
+    for shp in [[1, 3], [3, 1], [1, 1, 3], [1, 3, 1], [3, 1, 1], [1, 4]] + ([[1, 1, 1, 4], [2, 1, 1], [1, 1, 2, 1]] if th else []):
+        cs.append({'scen': 'ttsvd', 's': {'shape': shp, 'pattern': [], 'general': True}})
+        cs.append({'scen': 'ttsvd', 's': {'shape': shp, 'pattern': [], 'general': True, 'entry': 'numpy'}})
+        cs.append({'scen': 'ttsvd', 's': {'shape': shp, 'pattern': [], 'general': True, 'rmax': 1}})
     # constructor with an explicit shape argument (reshape first), incl. order-1 target and singleton modes
     for shp, N in [([4], [2, 2]), ([2, 4], [2, 2, 2]), ([8], [2, 2, 2]), ([2, 3], [6]), ([2, 2], [1, 2, 2]), ([6], [2, 3]), ([4], [2, 1, 2])]:
         pats = gen_patterns(shp, 3, rng, 3 if not th else 8, modes=N, reindex=lambda p, shp=shp, N=N: pattern_in(shp, p, N))
@@ -119,7 +126,8 @@ def meta(tier):
         'bounds': 'K: rank_chop on symbolic sorted non-negative vectors of length 1..6 (thorough 8) with a symbolic threshold of any sign. '
                   'S: dense inputs of order 1..4 (thorough 5), mode sizes 1..3 (4), with <= 4 (5) non-zero entries of symbolic positive magnitude on sparsity patterns on which '
                   'every unfolding of the sweep has rows or columns with disjoint supports (structurally-orthogonal class: exact symbolic SVD); eps symbolic in (0,1); '
-                  'rmax absent, each of 1..3, or a per-bond list; torch and numpy sources, shape argument, operator shapes; patterns: seeded sample + diagonals',
+                  'rmax absent, each of 1..3, or a per-bond list; torch and numpy sources, shape argument, operator shapes; patterns: seeded sample + diagonals. '
+                  'G: dense inputs with arbitrary sign-free entries whose every unfolding has a single row or column (1 x n, n x 1, 1 x 1 x n, ...)',
         'outside': 'dense inputs outside the structurally-orthogonal class (general SVD is not encodable), float32/complex SVD, IEEE rounding (reals; the "up to roundoff" slack is 1e-9 relative), '
                    'the unfolding-rank bound is checked against the generic (term) rank of the pattern, which equals the exact rank on this class',
         'assumptions': ['torch.linalg.svd replaced by the exact structural SVD model of tv/factor.py (one valid SVD; ties broken either way by the explorer)',
